@@ -289,6 +289,25 @@ theorem add_case_insensitive (re : Re) (m : Mix) (x x' : Bytes) (ls : List Label
   · rw [add_domain, add_domain]; simp [hp, hp', hl, hl']
   · rw [add_full, add_full]; simp [hp, hp', hl, hl']
 
+theorem not_prefix_of_no_colon (p x : Bytes) (hp : (58 : UInt8) ∈ p) (hc : x.contains 58 = false) :
+    p.isPrefixOf x = false := by
+  rw [← Bool.not_eq_true, List.isPrefixOf_iff_prefix]
+  rintro ⟨t, rfl⟩
+  have : (58 : UInt8) ∈ p ++ t := List.mem_append_left t hp
+  rw [← List.contains_iff_mem, hc] at this
+  exact Bool.false_ne_true this
+
+/-- ★ the same for bare entries (no `:` in them). -/
+theorem bare_case_insensitive (re : Re) (x x' : Bytes) (h : x.map lowerByte = x'.map lowerByte)
+    (hc : x.contains 58 = false) (hc' : x'.contains 58 = false) :
+    specRule re x = specRule re x' := by
+  unfold specRule
+  rw [not_prefix_of_no_colon pfxFull x (by decide) hc, not_prefix_of_no_colon pfxDomain x (by decide) hc,
+    not_prefix_of_no_colon pfxRegexp x (by decide) hc,
+    not_prefix_of_no_colon pfxFull x' (by decide) hc', not_prefix_of_no_colon pfxDomain x' (by decide) hc',
+    not_prefix_of_no_colon pfxRegexp x' (by decide) hc', hc, hc', specName_case x x' h]
+  simp
+
 example : specRule miniRe [102, 117, 108, 108, 58, 65] = some (.full [[97]]) := by decide  -- "full:A"
 example : specRule miniRe [65, 46, 66] = some (.domain [[97], [98]]) := by decide           -- "A.B"
 example : specLine miniRe [32, 97, 32, 35, 120] = .entry (.domain [[97]]) := by decide      -- " a #x"
@@ -328,6 +347,44 @@ example : spec miniRe ⟨[.load [[99]]], [.labels [[97], [99]], .labels [[111]]]
   decide
 example : spec miniRe ⟨[.load [[99]]], [.labels [[97], [99]]]⟩ ⟨[[false]], [true]⟩ = false := by decide
 example : specReadable (.labels [[97, 1]]) (some [97, 49]) = false := by decide
+
+/-! ## witnesses of the repaired defects (the pre-fix code, for the record) -/
+
+/-- D5: the pre-fix key was the zero-padded label without its length … -/
+def oldShortKey (label : Label) : List UInt8 :=
+  label.take 24 ++ List.replicate (24 - (label.take 24).length) 0
+
+/-- … so `a` and `a\x00` shared a key. -/
+theorem d5_old_key_not_injective : oldShortKey [97] = oldShortKey [97, 0] ∧ ([97] : Label) ≠ [97, 0] := by
+  decide
+
+/-- D4: the pre-fix `Add` had no early return: `GetOrAddChild` replaced a leaf by a subtree. -/
+def oldAddWalk : List Label → Children → Children
+  | [], n => n
+  | label :: rest, n =>
+    if label.length == 0 then oldAddWalk rest n
+    else if rest.isEmpty then addLeaf n label
+    else
+      let r := getOrAddChild n label
+      store (keyOf label) (.node (oldAddWalk rest r.2)) r.1
+
+/-- `com` then `a.com`: `com` and `b.com` stopped matching. -/
+theorem d4_old_add_unmatches :
+    matchWalk [[99]] (oldAddWalk [[99]] []) = true ∧
+    matchWalk [[99]] (oldAddWalk [[99], [97]] (oldAddWalk [[99]] [])) = false ∧
+    matchWalk [[99], [98]] (oldAddWalk [[99], [97]] (oldAddWalk [[99]] [])) = false ∧
+    matchWalk [[99], [98]] (addWalk [[99], [97]] (addWalk [[99]] [])) = true := by decide
+
+/-- D6: the pre-fix escape wrote the bare decimal value … -/
+def oldEscapeByte (b : UInt8) : Bytes :=
+  if isPrintableLabelChar b then [b]
+  else if b = 46 then [92, 46]
+  else if b = 92 then [92, 92]
+  else (toString b.toNat).toList.map (fun c => UInt8.ofNat c.toNat)
+
+/-- … so `a\x01` and `a1` had the same text. -/
+theorem d6_old_text_not_injective :
+    ([97, 1] : Label).flatMap oldEscapeByte = ([97, 49] : Label).flatMap oldEscapeByte := by decide
 
 /-! ## ties -/
 
